@@ -207,6 +207,13 @@ func c15handler(c *Ctx) {
 		}
 		exp = pruneEmptyGroups(exp)
 		std := gen.Pick(r, []stdslog.Level{stdslog.LevelDebug, stdslog.LevelInfo, stdslog.LevelWarn, stdslog.LevelError})
+		oddLevel := r.P(15) // any level value: content, time and single emission still hold; the severity name is unspecified
+		if oddLevel {
+			std = stdslog.Level(r.Range(-12, 20))
+			if _, ok := stdNames[std]; ok {
+				oddLevel = false
+			}
+		}
 		ts := r.Time()
 		msg := "h" + r.Str(gen.StrOpt{HostilePc: 30, NoESC: true, NoMarkup: true, NoCtl: f == FColor, ValidUTF8: f == FColor})
 		if f == FColor {
@@ -261,6 +268,17 @@ func c15handler(c *Ctx) {
 		}
 		payload := writes[0].Data
 		lvl := stdNames[std]
+		if oddLevel {
+			// read the severity name the adapter chose from the record itself
+			if d0, err := decodeRecord(f, payload, true, caller); err == nil {
+				for _, cand := range append(append([]slog.Level(nil), builtinLevels...), 77) {
+					if d0.Level == cand.String() || d0.Level == cand.ShortTag(3) {
+						lvl = cand
+					}
+				}
+			}
+			c.R.Add("records_with_non_standard_level", 1)
+		}
 		var viols []tv
 		switch f {
 		case FJSON:
@@ -304,6 +322,9 @@ func c15handler(c *Ctx) {
 		c.R.NonTrivial(string(payload))
 		if c.R.WantSample() && nDer > 1 {
 			c.R.Sample(idx, desc, map[string]any{"payload": string(payload)})
+		}
+		if oddLevel {
+			return
 		}
 		// through a log/slog.Logger: emitted iff Enabled
 		sl := stdslog.New(cur)
